@@ -143,6 +143,7 @@ struct World {
     std::map<std::string, std::unique_ptr<Vertex4> > vertices;
     std::map<std::string, Operator> algebra;                              // C05 registers
     bool repeat;                                                          // call prepare()/compute() a second time on every object (idempotence)
+    bool have_tol2 = false; double tol2[3] = {1e-8, 1e-16, 1e-5};           // user-set precision knobs of two-particle objects (public members)
     World() : repeat(false) {}
 
     ~World() {
@@ -513,6 +514,9 @@ static std::string exec_line(World*& W, long lineno, const std::string& line) {
         W->H.reset(new Hamiltonian(W->ic(), W->st(), W->s()));
         J.kvi("ok", 1); return J.done();
     }
+    if (cmd == "tol2") {   // tol2 <ReduceResonanceTolerance> <CoefficientTolerance> <MultiTermCoefficientTolerance>: applied to every later chi / c4 object
+        W->tol2[0] = t.d(); W->tol2[1] = t.d(); W->tol2[2] = t.d(); W->have_tol2 = true; J.kvi("ok", 1); return J.done();
+    }
     if (cmd == "repeat") { W->repeat = t.l() != 0; J.kvi("ok", 1); return J.done(); }
     if (cmd == "hprepare") { W->h().prepare(W->comm); if (W->repeat) W->h().prepare(W->comm); J.kvi("ok", 1); return J.done(); }
     if (cmd == "hcompute") { W->h().compute(W->comm); if (W->repeat) { W->h().prepare(W->comm); W->h().compute(W->comm); } J.kvi("ok", 1); return J.done(); }
@@ -732,6 +736,7 @@ static std::string exec_line(World*& W, long lineno, const std::string& line) {
         std::string mode = t.word();
         std::unique_ptr<TwoParticleGF>& X = W->chis[name];
         X.reset(new TwoParticleGF(W->s(), W->h(), W->c_of(src, i), W->c_of(src, j), W->cdag_of(src, k), W->cdag_of(src, l), W->dm()));
+        if (W->have_tol2) { X->ReduceResonanceTolerance = W->tol2[0]; X->CoefficientTolerance = W->tol2[1]; X->MultiTermCoefficientTolerance = W->tol2[2]; }
         X->prepare();
         std::vector<ComplexType> table;
         if (mode == "table") { std::vector<freq_tuple> f = read_freqs(t); table = X->compute(clear != 0, f, W->comm); }
@@ -818,7 +823,11 @@ static std::string exec_line(World*& W, long lineno, const std::string& line) {
     // ---------------- 2PGF container (C13, C06) ----------------
     if (cmd == "c4") {
         std::string sub = t.word();
-        if (sub == "new") { W->C4.reset(new TwoParticleGFContainer(W->ic(), W->s(), W->h(), W->dm(), W->ops())); J.kvi("ok", 1); return J.done(); }
+        if (sub == "new") {
+            W->C4.reset(new TwoParticleGFContainer(W->ic(), W->s(), W->h(), W->dm(), W->ops()));
+            if (W->have_tol2) { W->C4->ReduceResonanceTolerance = W->tol2[0]; W->C4->CoefficientTolerance = W->tol2[1]; W->C4->MultiTermCoefficientTolerance = W->tol2[2]; }
+            J.kvi("ok", 1); return J.done();
+        }
         TwoParticleGFContainer& C = World::need(W->C4, "c4");
         if (sub == "fill" || sub == "prepareAll") {
             long k = t.l();
